@@ -222,6 +222,10 @@ def plan(tier, seed):
                                 c3 = dict(c2)
                                 c3['Injection Wellbore Temperature Gain'] = '6'
                                 P.append({'fam': fam, 'changes': c3})
+                # a reservoir colder than the water that reaches it (injection temperature + gain above bottom-hole temperature): legal; the history
+                # still starts at bottom-hole temperature
+                for md in ('1', '0.05'):
+                    P.append({'fam': fam, 'changes': {'Gradient 1': '12', 'Injection Temperature': '50', 'Injection Wellbore Temperature Gain': '10', 'Maximum Drawdown': md}})
                 # multi-segment end to end
                 P.append({'fam': fam, 'changes': {'Number of Segments': '3', 'Gradient 1': '60', 'Gradient 2': '30', 'Gradient 3': '80',
                                                   'Thickness 1': '1', 'Thickness 2': '1.5'}})
